@@ -122,3 +122,16 @@ CHECKS["C09"] = {
     "design_ref": "DESIGN.md section 5 (C09)",
     "note": "CompressingReader and lz4c outputs are judged by the same predicate under C18 / C20.",
 }
+
+CHECKS["C02"] = {
+    "technique": _FRAME_TECH + "; TLC-enumerated Writer call histories (MC_Writer) concretised per block size and executed; the "
+                 "runs are validated against Writer.tla (Writer_Trace), LZ4Frame.tla (emitted frame) and Reader.tla (Reader_Trace)",
+    "text": "TLC explores every Writer call sequence of <= 4 calls at B = 4 (conservation of accepted bytes, block cuts independent "
+            "of the partition, one header, complete frame after Close) and exports the delivery histories; each is executed with "
+            "real block sizes under seeded option vectors, and read back with every reader configuration class. Acceptance requires: "
+            "the recorded Writer calls and per-call sink-call counts are a behaviour of Writer.tla, the emitted frame is strictly "
+            "valid and decodes to the input, and every recorded Read/WriteTo call returns exactly what Reader.tla prescribes "
+            "(full buffers, EOF exactly at the end and again afterwards without consuming source bytes, delivered = input).",
+    "design_ref": "DESIGN.md section 5 (C02)",
+    "note": "Inputs up to ~3 blocks; the full option matrix is sampled (every value of every option, seeded pairing), not enumerated.",
+}
